@@ -488,6 +488,7 @@ pub fn c14(ctx: &mut Ctx) {
         }
     }
     ctx.rep.count("cases.lattice", n);
+    oligo_reuse(ctx, 14);
     if ctx.shard.is_first() {
         ctx.rep.sample("schedule exploration: N=3, 3 records, k=1, header, delimiter \"::\": every write (pos,len,cap) of every schedule logged; writes must tile [0,cap) exactly".to_string());
         ctx.rep.sample("lattice: k=3, delimiter \"<-->\", header on, 2 records, 16 workers".to_string());
@@ -1293,11 +1294,17 @@ pub fn c05_lattice(ctx: &mut Ctx) {
                 if sh.mine() {
                     c05_config(ctx, "five-hundred", &pool[..nrec], 2, "fasta", threads, limit, writer, nrec % 2 == 1, " ");
                     n += 1;
+                    if nrec <= 3 {
+                        // both header settings on the smallest inputs (incl. no record at all)
+                        c05_config(ctx, "five-hundred", &pool[..nrec], 2, "fasta", threads, limit, writer, nrec % 2 == 0, ",");
+                        n += 1;
+                    }
                 }
             }
         }
     }
     ctx.rep.count("cases.lattice", n);
+    oligo_reuse(ctx, 5);
     if ctx.shard.is_first() {
         ctx.rep.sample("configuration: 500 records, wrapped FASTA width 3, batch writer, 16 threads, batch limit 7 bases, header on, delimiter tab".to_string());
         ctx.rep.sample("configuration: one 300 000-base record followed by 6 short ones, batch limit 1 (one batch per record), 8 threads".to_string());
@@ -1311,4 +1318,138 @@ pub fn replay_c05cfg(ctx: &mut Ctx, a: &[String]) {
         recs.truncate(n);
     }
     c05_config(ctx, &a[1], &recs, a[2].parse().unwrap(), &a[3], a[4].parse().unwrap(), a[5].parse().unwrap(), &a[6], a[7] == "1", &String::from_utf8(unhex(&a[8])).unwrap());
+}
+
+// ------------------------------------------------------------------------------------------ object reuse (operation sequences)
+
+#[derive(Clone, Debug)]
+struct OligoCfg {
+    header: bool,
+    delim: &'static str,
+    writer: &'static str, // mmap | batch | auto
+    threads: usize,
+    norm: bool,
+}
+
+fn oligo_cfg_code(c: &OligoCfg) -> String {
+    format!("{}{}:{}:{}:{}", if c.header { "H" } else { "-" }, hex(c.delim.as_bytes()), c.writer, c.threads, c.norm as u8)
+}
+
+fn oligo_cfg_parse(s: &str) -> OligoCfg {
+    let p: Vec<&str> = s.split(':').collect();
+    let delim: &'static str = match String::from_utf8(unhex(&p[0][1..])).unwrap().as_str() {
+        " " => " ",
+        ", " => ", ",
+        "" => "",
+        "," => ",",
+        _ => "\t",
+    };
+    let writer: &'static str = match p[1] {
+        "mmap" => "mmap",
+        "batch" => "batch",
+        _ => "auto",
+    };
+    OligoCfg { header: p[0].starts_with('H'), delim, writer, threads: p[2].parse().unwrap(), norm: p[3] == "1" }
+}
+
+/// One OligoComputer object, several runs with settings changed in between through the public setters, always
+/// into the same output path: every run must give what a fresh computer with those settings gives (rows by the
+/// model, write log by the C14 invariant). `which` = 5 (rows) or 14 (write log).
+fn oligo_reuse_sequence(ctx: &mut Ctx, seq: &[OligoCfg], which: u32) {
+    let records: Vec<Vec<u8>> = vec![b"AAAC".to_vec(), b"CCG".to_vec(), b"ACGTT".to_vec()];
+    let k = 2usize;
+    let inp = format!("{}/reuse_in.fa", ctx.scratch);
+    let outp = format!("{}/reuse_out.txt", ctx.scratch);
+    write_fasta(&inp, &records);
+    let _ = std::fs::remove_file(&outp);
+    let argv = {
+        let mut a = vec!["case".to_string(), "OligoReuse".to_string(), which.to_string()];
+        a.extend(seq.iter().map(oligo_cfg_code));
+        a
+    };
+    ctx.journal.note(|| format!("oligo reuse {:?}", argv));
+    ctx.rep.evaluations += 1;
+    let mut oc = OligoComputer::new(inp.clone(), outp.clone(), k);
+    let what = format!("one OligoComputer (k={k}, 3 records) run {} times with settings {:?}", seq.len(), seq);
+    for (step, cfg) in seq.iter().enumerate() {
+        oc.set_threads(cfg.threads);
+        oc.set_norm(cfg.norm);
+        oc.set_header(cfg.header);
+        oc.set_delim(cfg.delim.to_string());
+        let (r, res) = execute(&[], FREE_LOGGED, || match cfg.writer {
+            "mmap" => oc.verif_vectorise_mmap(),
+            "batch" => oc.verif_vectorise_batch(),
+            _ => oc.vectorise(),
+        });
+        let bytes = std::fs::read(&outp).unwrap_or_default();
+        let size = seq.len() * 10 + step;
+        match r {
+            Err(p) => return viol(ctx, "panic", size, format!("{what}: run {step} panicked: {p}"), argv),
+            Ok(Err(e)) => return viol(ctx, "error", size, format!("{what}: run {step}: {e}"), argv),
+            Ok(Ok(())) => {}
+        }
+        let used_mmap = cfg.writer == "mmap" || (cfg.writer == "auto" && cfg.norm);
+        let case = OligoCase { threads: cfg.threads, k, header: cfg.header, delim: cfg.delim.to_string(), records: records.clone(), memory: None };
+        if which == 14 {
+            if used_mmap {
+                if let Err((key, m)) = c14_check_writes(&case, &res, &bytes) {
+                    return viol(ctx, &key, size, format!("{what}: run {step} (settings {:?}): {m}", cfg), argv);
+                }
+            }
+        } else if cfg.norm {
+            if let Err((key, m)) = oligo_rows_in_order(&case, &bytes) {
+                return viol(ctx, &key, size, format!("{what}: run {step} (settings {:?}): {m}", cfg), argv);
+            }
+        }
+    }
+    ctx.rep.nontrivial += 1;
+}
+
+pub fn oligo_reuse(ctx: &mut Ctx, which: u32) {
+    let mut cfgs: Vec<OligoCfg> = Vec::new();
+    for header in [false, true] {
+        for delim in [" ", ", ", ""] {
+            for (writer, norm) in [("mmap", true), ("batch", true), ("auto", false)] {
+                for threads in [1usize, 3] {
+                    if delim.is_empty() && !norm {
+                        continue;
+                    }
+                    cfgs.push(OligoCfg { header, delim, writer, threads, norm });
+                }
+            }
+        }
+    }
+    let mut sh = ctx.shard;
+    let mut n = 0u64;
+    for a in &cfgs {
+        for b in &cfgs {
+            if sh.mine() {
+                oligo_reuse_sequence(ctx, &[a.clone(), b.clone()], which);
+                n += 1;
+            }
+        }
+    }
+    if ctx.thorough() {
+        for a in &cfgs {
+            for b in &cfgs {
+                for c in cfgs.iter().step_by(3) {
+                    if sh.mine() {
+                        oligo_reuse_sequence(ctx, &[a.clone(), b.clone(), c.clone()], which);
+                        n += 1;
+                    }
+                }
+            }
+        }
+    }
+    ctx.rep.count("cases.object_reuse_sequences", n);
+    if ctx.shard.is_first() {
+        ctx.rep.sample("object reuse: one OligoComputer, run with (header, delimiter \", \", mmap writer), then set_header(false) + set_delim(\" \") and run again into the same path".to_string());
+        ctx.rep.notes.push(format!("operation sequences on ONE computer object: every ordered pair (thorough: triples) of {} settings (header x 3 delimiters x 3 writer paths x threads 1/3), changed in between through the public setters, same output path; each run is held to the oracle of a fresh computer", cfgs.len()));
+    }
+}
+
+pub fn replay_oligo_reuse(ctx: &mut Ctx, a: &[String]) {
+    let which: u32 = a[1].parse().unwrap();
+    let seq: Vec<OligoCfg> = a[2..].iter().map(|s| oligo_cfg_parse(s)).collect();
+    oligo_reuse_sequence(ctx, &seq, which);
 }
